@@ -38,10 +38,11 @@ WRAPS = {"bool": "BoolValue", "bytes": "BytesValue", "double": "DoubleValue", "f
          "int64": "Int64Value", "string": "StringValue", "uint32": "UInt32Value", "uint64": "UInt64Value"}
 
 
-def F(name, num, kind, card="implicit", group="", msg="", enum="", kkind="", vkind="", pyname=""):
-    """name is the proto field name; pyname the Python attribute name when the two differ (keywords get a trailing _)"""
+def F(name, num, kind, card="implicit", group="", msg="", enum="", kkind="", vkind="", pyname="", optmember=False):
+    """name is the proto field name; pyname the Python attribute name when the two differ (keywords get a trailing _);
+    optmember: a oneof member declared the way the plugin's pydantic flavour declares it (optional=True, default None)"""
     return {"name": name, "num": num, "kind": kind, "card": card, "group": group, "msg": msg, "enum": enum,
-            "kkind": kkind, "vkind": vkind, "pyname": pyname or name}
+            "kkind": kkind, "vkind": vkind, "pyname": pyname or name, "optmember": bool(optmember)}
 
 
 def py(f):
@@ -158,6 +159,8 @@ def make_bp(schema, modname=None, twin=True):
                 kw["optional"] = True
             if card == "oneof":
                 kw["group"] = f["group"]
+                if f.get("optmember"):
+                    kw["optional"] = True
             if k == "map":
                 vk = f["vkind"]
                 vt = f["msg"] if vk == "message" else f["enum"] if vk == "enum" else PYT[vk]
@@ -179,7 +182,7 @@ def make_bp(schema, modname=None, twin=True):
                     base, fld = PYT[k], getattr(betterproto, k + "_field")(f["num"], **kw)
                 if card == "repeated":
                     ann = "List[%s]" % base
-                elif card == "optional":
+                elif card == "optional" or f.get("optmember"):
                     ann = "Optional[%s]" % base
                 else:
                     ann = base
